@@ -650,7 +650,7 @@ def props_of_root(body):
 
 def anchors(pid):
     """root keys whose schema serves property pid"""
-    return sorted(k for k, (props, _) in HANDLERS.items() if pid in props)
+    return sorted((k for k, (props, _) in HANDLERS.items() if pid in props), key=lambda k: tuple(str(x) for x in k))
 
 
 def check_root(E, body, rr):
